@@ -28,6 +28,7 @@ def rand_script(rng, n):
     via = {"k1": dict(st="idle"), "k2": dict(st="idle")}
     out = []
     tries = 0
+    ended = {}
     hold = [False]
     while len(out) < n and tries < 10 * n:
         tries += 1
@@ -83,7 +84,19 @@ def rand_script(rng, n):
                     if v["st"] == "reg" and v["p"] == p and kind != "exit":
                         v["st"] = "done"
             out.append(dict(a="NewStream", s=s, kind=kind, p=p, ans=ans, mode=mode))
-        elif r < 0.82:
+        elif r < 0.78:
+            # a stream we have seen fails, and is reported closed afterwards
+            cand = [x for x in seen if x not in pend and ended.get(x) != "closed"]
+            if not cand:
+                continue
+            x = rng.choice(cand)
+            if ended.get(x) == "failed":
+                ended[x] = "closed"
+                out.append(dict(a="LateClosed", s=x))
+            else:
+                ended[x] = "failed"
+                out.append(dict(a="StreamFailed", s=x))
+        elif r < 0.84:
             if not pend:
                 continue
             s = rng.choice(sorted(pend))
@@ -130,6 +143,14 @@ def directed():
                 dict(a="ViaConnect", k="k2", c=2, late=False), dict(a="ViaAddr", k="k2", p=4002),
                 dict(a="NewStream", s=3, kind="normal", p=4002, ans="none", mode="imm")]
             out.append(s)
+    # streams that fail and are then reported closed, under each kind of attacher
+    out.append([dict(a="SetAttacher", who="A"), dict(a="NewStream", s=1, kind="normal", p=4001, ans="none", mode="imm"),
+                dict(a="StreamFailed", s=1), dict(a="LateClosed", s=1),
+                dict(a="NewStream", s=2, kind="normal", p=4002, ans="c1", mode="imm"), dict(a="StreamFailed", s=2), dict(a="LateClosed", s=2)])
+    out.append(B + [dict(a="ViaConnect", k="k1", c=1, late=False), dict(a="ViaAddr", k="k1", p=4001),
+                    dict(a="NewStream", s=1, kind="normal", p=4001, ans="none", mode="imm"), dict(a="StreamFailed", s=1),
+                    dict(a="LateClosed", s=1), dict(a="NewStream", s=2, kind="normal", p=4002, ans="none", mode="imm"),
+                    dict(a="StreamFailed", s=2), dict(a="LateClosed", s=2)])
     # the second connection re-uses the first one's port after it completed
     out.append(B + [dict(a="ViaConnect", k="k1", c=1, late=False), dict(a="ViaAddr", k="k1", p=4003),
                     dict(a="NewStream", s=1, kind="normal", p=4003, ans="none", mode="imm"),
